@@ -1,6 +1,6 @@
 /-
-Termination measure of the atomic mesh system: a natural number that every
-atomic step from an invariant state strictly decreases.
+Termination measure of the mesh system: a natural number that every step of
+the code as it is, taken from an invariant state, strictly decreases.
 -/
 import MpcVerif.Proofs.MeshLive
 
@@ -48,13 +48,21 @@ def phaseCost (c : Cfg) : Phase → Nat
   | .done => 0
   | .run k todo => todo.length + 1 + (c.m - (k + 1)) * (c.n + 2) + (if k = 0 then c.n + 1 else 0)
   | .info r => r.length + 1 + (c.m - 1) * (c.n + 2)
-  | .hello => run0max c + c.m * c.n + 1
-  | .joined => run0max c + c.m * c.n + 2
-  | .init => run0max c + c.m * c.n + 3
+  | .hello => run0max c + 3 * (c.m * c.n) + 1
+  | .joined => run0max c + 3 * (c.m * c.n) + 2
+  | .init => run0max c + 3 * (c.m * c.n) + 3
 
-/-- Steps left for party p: its own goroutine plus the accepts it still waits for. -/
+/-- Steps the accept goroutine needs to get back to `Accept` (plus 2 when idle,
+so that the last step of an accept still decreases the sum). -/
+def inflCost : Infl → Nat
+  | .none => 2
+  | .taken .. => 1
+  | .stored .. => 0
+
+/-- Steps left for party p: its own goroutine plus three per accept it still
+waits for (check, store, decrement). -/
 def partyCost (c : Cfg) (s : State) (p : Nat) : Nat :=
-  phaseCost c (s.phase p) + sumTo (s.need p) c.m
+  phaseCost c (s.phase p) + 3 * sumTo (s.need p) c.m + inflCost (s.infl p)
 
 /-- The measure. -/
 def mu (c : Cfg) (s : State) : Nat := sumTo (partyCost c s) c.n
@@ -104,14 +112,12 @@ theorem advance_cost (c : Cfg) (s : State) (p k : Nat) (hk : k < c.m)
   · simp only [hlt, if_false, phaseCost]
     omega
 
-theorem measure_step (c : Cfg) (hc : c.Ok) (s s' : State) (h : Inv c s) (e : Ev) (he : e.atomic = true)
+theorem measure_step (c : Cfg) (hc : c.Ok) (s s' : State) (h : Inv c s) (e : Ev) (he : e.real = true)
     (hs : step c s e = some s') : mu c s' < mu c s := by
   have hn2 := hc.n2
   have hm1 := hc.m1
   have h' := inv_step c hc s s' h e he hs
   cases e with
-  | accDec j i k => simp [Ev.atomic] at he
-  | accStore j => simp [Ev.atomic] at he
   | join i =>
     simp only [step] at hs
     split at hs
@@ -148,22 +154,51 @@ theorem measure_step (c : Cfg) (hc : c.Ok) (s s' : State) (h : Inv c s) (e : Ev)
       · intro q _ hq; simp [partyCost, upd_apply, hq]
       · simp [partyCost, upd_apply, hph, phaseCost]
     · simp at hs
-  | accept j i k =>
-    obtain ⟨hp, hacc, kn', hkn, hse⟩ := accept_shape c hc s s' h j i k hs
+  | oldDec j i k => simp [Ev.real] at he
+  | oldStore j => simp [Ev.real] at he
+  | accTake j i k =>
+    simp only [step, stepAccTake] at hs
+    by_cases hpre : s.acc j = true ∧ s.infl j = .none ∧ s.pend j i k = true
+    · obtain ⟨hacc, hinfl, hp⟩ := hpre
+      have hf := h.pendFacts hp
+      have hnp := h.need_pos hp hacc
+      rw [if_pos ⟨hacc, hinfl, hp⟩, if_pos ⟨hf.km, hnp⟩] at hs
+      simp only [Bool.false_eq_true, if_false, Option.some.injEq] at hs
+      subst hs
+      apply mu_lt c _ _ j hf.jn
+      · intro q _ hq; simp [partyCost, upd_apply, hq]
+      · simp [partyCost, upd_apply, hinfl, inflCost]
+    · rw [if_neg hpre] at hs; simp at hs
+  | accStore j =>
+    obtain ⟨i, k, ht, kn', hkn, hse⟩ := store_shape c hc s s' h j hs
     subst hse
-    have hf := h.pendFacts hp
-    have hnp := h.need_pos hp hacc
+    have hf := h.takenFacts ht
     apply mu_lt c _ _ j hf.jn
-    · intro q _ hq
-      simp only [partyCost]
-      congr 1
-      apply sumTo_congr
-      intro x _; simp [upd2_apply, hq]
-    · simp only [partyCost]
-      have := sumTo_change (s.need j) (upd2 s.need j k (s.need j k - 1) j) c.m k hf.km
-        (by intro x _ hx; simp [upd2_apply, hx])
-      simp only [upd2_apply, true_and, if_true] at this ⊢
-      omega
+    · intro q _ hq; simp [partyCost, upd_apply, hq]
+    · simp [partyCost, upd_apply, ht, inflCost]
+  | accDec j =>
+    simp only [step, stepAccDec] at hs
+    cases ht : s.infl j with
+    | none => simp [ht] at hs
+    | taken a b => simp [ht] at hs
+    | stored i k =>
+      simp only [ht] at hs
+      have hf := h.storedFacts ht
+      have hnd := h.need_pos_stored ht
+      rw [if_pos (by omega)] at hs
+      simp only [Option.some.injEq] at hs
+      subst hs
+      apply mu_lt c _ _ j hf.jn
+      · intro q _ hq
+        simp only [partyCost, upd_apply, hq, if_false]
+        have e : sumTo (upd2 s.need j k (s.need j k - 1) q) c.m = sumTo (s.need q) c.m :=
+          sumTo_congr _ _ _ (by intro x _; simp [upd2_apply, hq])
+        rw [e]
+      · simp only [partyCost, upd_apply, if_true, ht, inflCost]
+        have := sumTo_change (s.need j) (upd2 s.need j k (s.need j k - 1) j) c.m k hf.km
+          (by intro x _ hx; simp [upd2_apply, hx])
+        simp only [upd2_apply, true_and, if_true] at this ⊢
+        omega
   | waitDone p =>
     simp only [step] at hs
     split at hs
@@ -269,9 +304,10 @@ theorem measure_step (c : Cfg) (hc : c.Ok) (s s' : State) (h : Inv c s) (e : Ev)
         simp at h1; omega
       have hneed' : s'.need i = fun k => if k < c.m then (l.filter (· < i)).length else 0 := by
         subst hs; simp [upd_apply]
+      have hinfl' : s'.infl = s.infl := by subst hs; rfl
       apply mu_lt c _ _ i hin
       · intro q _ hq; subst hs; simp [partyCost, upd_apply, hq]
-      · simp only [partyCost, hT, hneed', hph, phaseCost, if_true, Nat.zero_add]
+      · simp only [partyCost, hT, hneed', hinfl', hph, phaseCost, if_true, Nat.zero_add]
         have e1 : sumTo (fun k => if k < c.m then (l.filter (· < i)).length else 0) c.m =
             sumTo (fun _ => (l.filter (· < i)).length) c.m :=
           sumTo_congr _ _ _ (fun x hx => by simp [hx])
